@@ -5,6 +5,7 @@ mod calendar;
 mod cli;
 mod order;
 mod pep440;
+mod render;
 mod sanitizer;
 mod semver;
 mod wire;
@@ -24,6 +25,8 @@ fn main() {
         ("record", "sanitizer") => sanitizer::record(rest),
         ("replay", "calendar") => calendar::replay(rest),
         ("record", "calendar") => calendar::record(rest),
+        ("replay", "render") => render::replay(rest),
+        ("record", "render") => render::record(rest),
         ("replay", "zerv") => zmodel::replay(rest),
         ("record", "zerv") => zmodel::record(rest),
         ("replay", "semver-order") => order::replay("semver", rest),
